@@ -286,6 +286,16 @@ def corpus():
     return [
         {"id": "corpus-D2a", "kind": "c02", "a": one([0], [], [[[3], [1]]]), "args": [sc(-1)], "kwargs": [], "mode": "full", "err": None},
         {"id": "corpus-D2b", "kind": "c02", "a": one([0], [], [[[2], [1]]]), "args": [sc(70000)], "kwargs": [], "mode": "full", "err": None},
+        # narrow coefficient types evaluated at numbers whose powers leave that type, through every carrier that holds the
+        # number itself (seeded change C02-11: the argument promoted with the polynomial's dtype instead of int64)
+        {"id": "corpus-narrow16", "kind": "c02", "a": dict(one([0], [], [[[2], [2]], [[1], [-1]], [[0], [1]]]), dtype="int16"),
+         "args": [sc(200)], "kwargs": [], "mode": "full", "err": None},
+        {"id": "corpus-narrow8", "kind": "c02", "a": dict(one([0], [], [[[2], [1]], [[0], [3]]]), dtype="int8"),
+         "args": [sc(100)], "kwargs": [], "mode": "full", "err": None},
+        {"id": "corpus-narrow32", "kind": "c02", "a": dict(one([0, 1], [2], [[[2, 0], [1, 0]], [[1, 1], [0, 1]]]), dtype="int32"),
+         "args": [sc(70000), sc(3)], "kwargs": [], "mode": "full", "err": None},
+        {"id": "corpus-narrowu8", "kind": "c02", "a": dict(one([0], [], [[[3], [1]]]), dtype="uint8"),
+         "args": [sc(20)], "kwargs": [], "mode": "full", "err": None},
     ]
 
 
